@@ -45,6 +45,22 @@ class World:
         p = os.path.join(self.w, rel)
         with open(p, 'w') as f: f.write(text)
         self.files[rel] = text
+    def _side_paths(self):
+        """files in the working directory that are neither inputs nor the object / .dwo: whatever the compiler writes on the side"""
+        keep = set(self.files) | {self.out, self.out[:-2] + '.dwo'}
+        res = []
+        for dp, dn, fn in os.walk(self.w):
+            for f in fn:
+                rel = os.path.relpath(os.path.join(dp, f), self.w)
+                if rel not in keep: res.append(rel)
+        return res
+    def _side(self):
+        # files whose bytes differ between two runs of the same compiler (timings, time stamps) are compared by name only
+        return {rel: ('*' if getattr(self, 'side_names_only', False) else hashlib.sha256(open(os.path.join(self.w, rel), 'rb').read()).hexdigest()[:12]) for rel in self._side_paths()}
+    def _clear_side(self):
+        for rel in self._side_paths():
+            try: os.remove(os.path.join(self.w, rel))
+            except OSError: pass
     def argv(self):
         a = [self.cur] + self.flags + (['-x', self.lang] if self.lang else []) + ['-c', 'main.c', '-o', self.out]
         return a
@@ -71,12 +87,14 @@ class World:
             else:
                 try: os.remove(p_)
                 except OSError: pass
+        self._clear_side()
         try: r = self.sc.compile(argv, self.w, env=env, timeout=getattr(self, 'req_timeout', 120))
         except subprocess.TimeoutExpired:
             self.trace.append(f'{note}: {" ".join(argv[1:])} -> no answer')
             self.fails.append({'kind': 'request_hangs', 'detail': f'[{note}] got no answer within {getattr(self, "req_timeout", 120)} s (the direct compile ends at once)', 'ops': list(self.trace)})
             self.sc.kill(); self.sc.start(); return 'hung'
         got = (r.returncode, r.stdout, r.stderr, file_state(out), file_state(dwo) and file_state(dwo)[0])
+        side_got = self._side(); self._clear_side()
         ran = loglines(self.log) - nlog
         after = counts(self.sc.stats() or {})
         for p_ in (out, dwo):
@@ -87,6 +105,7 @@ class World:
                 os.chmod(p_, saved[p_][1])
         d = subprocess.run(argv, cwd=self.w, env=dict(os.environ, **env), capture_output=True)
         want = (d.returncode, d.stdout, d.stderr, file_state(out), file_state(dwo) and file_state(dwo)[0])
+        side_want = self._side(); self._clear_side()
         if want[0] != 0 and left:
             # a failing request produces no output file on either side; what happens to a *stale* file left at the output path by
             # an earlier build differs (sccache removes it, gcc/clang leave it) and is not part of the statement (DESIGN §9):
@@ -115,6 +134,9 @@ class World:
             if what:
                 short = lambda t: (t[3] and (t[3][0][:8], oct(t[3][1])), t[4] and t[4][:8])
                 self.fails.append({'kind': 'differs_from_direct', 'detail': f'{"/".join(what)} differ from the direct compile after [{note}] ({cls})', 'ops': list(self.trace) + [f'wrapped: rc={got[0]} object/.dwo {short(got)}; direct: rc={want[0]} object/.dwo {short(want)}; leftover outputs kept: {sorted(os.path.basename(k) for k in saved)}']})
+        if side_got != side_want and want[0] == 0 and got[0] == 0:
+            names = sorted(set(side_got) ^ set(side_want)) or sorted(k for k in side_got if side_got[k] != side_want.get(k))
+            self.fails.append({'kind': 'side_output_differs', 'detail': f'files written next to the object differ from the direct compile after [{note}] ({cls}): {names[:4]} (wrapped has {sorted(side_got)}, direct has {sorted(side_want)})', 'ops': list(self.trace)})
         if expect_cacheable and want[0] == 0:
             if fp in self.seen and not evicted and not recache:
                 if cls != 'hit' or ran != 0:
@@ -597,3 +619,26 @@ def run_rsp(root, tag, compiler):
         finally:
             w.sc.stop(); shutil.rmtree(w.root, ignore_errors=True)
     return {'requests': reqs, 'rsp_scenarios': len(scen), 'fails': fails, 'samples': samples[:1]}
+
+
+# ------------------------------------------------------------------------------------------------ side outputs
+def run_side_outputs(root, tag, compiler):
+    """options and environment variables that make the compiler write files besides the object: every request (first = miss or not cacheable,
+    second = hit if it was cached) must leave the same files with the same bytes as the direct compile.  (--coverage is not here: two direct
+    compiles already differ in the stamp gcc puts into the object and the .gcno file.)"""
+    fails = []; reqs = 0; samples = []
+    base = os.path.basename(compiler)
+    scen = [('MD', ['-MD'], {}), ('MD_MF', ['-MD', '-MF', 'deps2.d'], {}), ('MMD_MT', ['-MMD', '-MT', 'tgt'], {}), ('split_dwarf', ['-g', '-gsplit-dwarf'], {}),
+            ('stack_usage', ['-fstack-usage'], {}), ('save_temps_obj', ['-save-temps=obj'], {}), ('dependencies_output', [], {'DEPENDENCIES_OUTPUT': 'envdeps.d'}), ('sunpro_dependencies', [], {'SUNPRO_DEPENDENCIES': 'sun.d'})]
+    if base == 'gcc': scen += [('aux_info', ['-aux-info', 'protos.txt'], {}), ('dump_tree', ['-fdump-tree-optimized'], {}), ('callgraph_info', ['-fcallgraph-info'], {}), ('opt_record', ['-fsave-optimization-record'], {}), ('dump_rtl', ['-fdump-rtl-expand'], {}), ('dumpbase', ['-fstack-usage', '-dumpbase', 'zz'], {})]
+    if base == 'clang': scen += [('opt_record', ['-fsave-optimization-record'], {}), ('serialize_diag', ['--serialize-diagnostics', 'diag.dia'], {}), ('time_trace', ['-ftime-trace'], {})]
+    for name, flags, env in scen:
+        w = World(os.path.join(root, 'side_' + name), f'{tag}so{name}', compiler, random.Random(0)); w.keep_outputs = False
+        w.flags = ['-O1', '-Iinc1'] + flags; w.env = dict(env); w.side_names_only = name in ('opt_record', 'time_trace'); w.sc.start()
+        try:
+            for i in range(2): w.request(f'side outputs {name} #{i}: {" ".join(flags)} {env if env else ""}', expect_cacheable=False); reqs += 1
+            fails += [dict(f, detail=f'side-output scenario {name}: ' + f['detail']) for f in w.fails if f['kind'] not in KNOWN_DEVIATIONS][:1]
+            samples.append(' ; '.join(w.trace[:2]))
+        finally:
+            w.sc.stop(); shutil.rmtree(w.root, ignore_errors=True)
+    return {'requests': reqs, 'side_output_scenarios': len(scen), 'fails': fails, 'samples': samples[:1]}
